@@ -32,6 +32,8 @@ func init() {
 				Rule: "no Backend.Fetch call is reachable in the module call graph from the sequencing function", Run: c08e},
 			{ID: "C08.f", Title: "ISSUER-VERIFIED", Template: "T2", MinInst: 3,
 				Rule: "existing issuer objects are compared before being trusted (as C04.c)", Run: c04c},
+			{ID: "C08.h", Title: "NONEMPTY-VERIFIED", Template: "T1+T7", MinInst: 2,
+				Rule: "with the edges on which the lock checkpoint's size is <= 0 cut, LoadLog cannot return successfully unless ReadHashes through the verifying tile reader and the data-tile fetch each succeeded; the size > 0 branch is live (the per-leaf steps inside the verification loop are C08.c and C08.g: a loop has a statically possible zero-iteration path)", Run: c08h},
 		},
 	})
 }
@@ -484,4 +486,72 @@ func lockBytesSource(f *Func, call *ast.CallExpr) ast.Expr {
 		}
 	}
 	return e
+}
+
+// ---------------------------------------------------------------------------
+// C08.h NONEMPTY-VERIFIED: a non-empty tree is never adopted unverified.
+
+func c08h(c *Ctx) {
+	f := c.Fn("ctlog.LoadLog")
+	if f == nil {
+		return
+	}
+	info := f.Info()
+	g := f.Graph()
+	okRets := successReturns(f)
+	lockCk := lockCheckpointObj(f)
+	if lockCk == nil || len(okRets) == 0 {
+		c.Unk(f.Name, "lock checkpoint / success return not found")
+		return
+	}
+	isN := func(e ast.Expr) bool {
+		r, p, ok := fieldPath(info, e)
+		return ok && r == lockCk && len(p) >= 1 && p[len(p)-1] == "N"
+	}
+	isZero := func(e ast.Expr) bool { v, ok := constInt(info, e); return ok && v == 0 }
+	// edges on which the tree may be taken as empty: they imply N <= 0
+	empty := g.EdgesImplying(func(a Atom) bool { rel, ok := cmpRel(a, isN, isZero); return ok && rel&relGT == 0 })
+	nonEmpty := g.EdgesImplying(func(a Atom) bool { rel, ok := cmpRel(a, isN, isZero); return ok && rel == relGT })
+	liveNE := false
+	for e := range nonEmpty {
+		if !g.dead[e] {
+			liveNE = true
+		}
+	}
+	if len(empty) == 0 || !liveNE {
+		c.Bad(f.Name+" non-empty tree is verified", f.Pos(f.Decl), "LoadLog does not distinguish the empty tree (size 0) from a tree whose right edge must be fetched and verified, or the verifying branch is dead")
+		return
+	}
+	steps := []struct {
+		name  string
+		sites []Site
+	}{
+		{"right-edge hash tiles read through the verifying tile reader", f.Calls(Callee{pkgTlog, "", "ReadHashes"}, Callee{pkgTlog, "*", "ReadHashes"})},
+		{"right-most data tile fetched", f.Calls(Callee{pkgCtlog, "", "fetchAndDecompress"})},
+	}
+	for _, st := range steps {
+		inst := f.Name + " non-empty tree: " + st.name
+		// only the calls that lie on the non-empty branch count
+		var sites []Site
+		for _, s := range st.sites {
+			if pt, _ := g.ReachableFromEntry(Cut{Edges: nonEmpty}, atSite(s)); pt == nil {
+				sites = append(sites, s)
+			}
+		}
+		if len(sites) == 0 {
+			c.Bad(inst, f.Pos(f.Decl), "this verification step is not performed on the non-empty branch of LoadLog")
+			continue
+		}
+		nilE, untested := gateEdges(sites, OutNil)
+		if len(untested) > 0 {
+			c.Bad(inst, untested[0].Pos(), "the result of this step is not tested")
+			continue
+		}
+		if pt, path := g.ReachableFromEntry(Cut{Edges: unionEdges(empty, nilE)}, atAnySite(okRets)); pt != nil {
+			c.Bad(inst, okRets[0].Pos(), "LoadLog can adopt a non-empty tree without this step having succeeded (path "+g.describePath(path)+")")
+			continue
+		}
+		c.add(Result{Instance: inst, Verdict: Discharged, Evals: len(sites), Sites: sitePositions(sites),
+			Detail: "with the size <= 0 edges and the step's success edges cut, no successful return is reachable", Witnesses: f.WitEdges(necessaryEdges(g, g.Entry(), nonEmpty, sites, Cut{}))})
+	}
 }
